@@ -92,20 +92,27 @@ def xr_apply(st, fn, operands, sort="real", nanfn=None, bool_result=False):
                 if d in masks and d not in o.fields["masks"]:
                     raise Unsupported(f"masked and unmasked operands along {d}")
 
+    def split(v, n):
+        # a cell that carries its own missing flag (terms.XR: numpy arrays with possibly-NaN cells): value and flag are separated,
+        # so that the DataArray's `nan` field is the only place where missing values live
+        if isinstance(v, T.XR):
+            return v.v, T.lor(n, v.nan)
+        return v, n
+
     def pick(kind, o, idx):
         if kind == "xa":
             a = o.fields["arr"]
             sub = tuple(idx[dims.index(d)] for d in o.fields["dims"])
             v = a.get(sub)
             n = o.fields["nan"].get(sub) if o.fields["nan"] is not None else False
-            return v, n
+            return split(v, n)
         if kind == "np":
             off = nd - o.ndim
             if off < 0:
                 raise Unsupported("numpy operand with more dimensions than the DataArray")
             sub = tuple(0 if (isinstance(s, int) and s == 1) else i for i, s in zip(idx[off:], o.shape))
             nm = getattr(o, "nanmask", None)
-            return o.get(sub), (nm.get(sub) if nm is not None else False)
+            return split(o.get(sub), (nm.get(sub) if nm is not None else False))
         if kind == "nanlit":
             return Fraction(0), True
         if isinstance(o, T.XR):
@@ -117,7 +124,7 @@ def xr_apply(st, fn, operands, sort="real", nanfn=None, bool_result=False):
         return fn(*vs)
 
     any_nan = any((k == "xa" and o.fields["nan"] is not None) or k == "nanlit" or isinstance(o, T.XR)
-                  or (k == "np" and getattr(o, "nanmask", None) is not None) for k, o in ops)
+                  or (k == "np" and (getattr(o, "nanmask", None) is not None or lib._may_be_nan(o))) for k, o in ops)
 
     def nan(idx):
         ns = [pick(k, o, idx)[1] for k, o in ops]
@@ -640,6 +647,12 @@ def _xr_dataarray(interp, st, args, kwargs):
                 if isinstance(vv, Arr) and k in dims:
                     cs[k] = vv
         nan = getattr(d, "nanmask", None)
+        if lib._may_be_nan(d):
+            # numpy data whose cells carry their own missing flag: values and flags are separated
+            d0 = d
+            nan0 = nan
+            d = Arr(d0.shape, lambda ix, d0=d0: T.xval(d0.get(ix)), (), "real", d0.name)
+            nan = Arr(d0.shape, lambda ix, d0=d0, nan0=nan0: T.lor(T.xnan(d0.get(ix)), nan0.get(ix) if nan0 is not None else False), (), "bool")
         return mk_xa(st, dims, d, nan, cs)
     if T.is_num(d):
         return mk_xa(st, (), CArr((), {(): d}), None, {})
